@@ -148,8 +148,9 @@ def safely_unquote_auth_item(string):
     string = NON_ASCII_CHAR_RE.sub(_quote_netloc_unsafe_match, string)
 
     # NOTE: a raw "@" (e.g. an email used as username) and its escaped form
-    # must end up the same, and the escaped form is the one kept quoted
-    return string.replace("@", "%40")
+    # must end up the same, and the escaped form is the one kept quoted. Same
+    # for square brackets
+    return string.replace("@", "%40").replace("[", "%5B").replace("]", "%5D")
 
 
 safely_unquote_path = partial(
